@@ -54,6 +54,17 @@ def parse_help(out):
             "aliases": am.group(1).split(", ") if am else []}
 
 
+def go_names(docview, names):
+    """Go's own answers (token.IsExported, strings.ToLower, ...) about strings, into the generator's table"""
+    names = [n for n in names if not G.is_ascii(n)]
+    if not names:
+        return
+    rc, out, err = sh([docview], input=(json.dumps({"names": names}) + "\n").encode(), timeout=120)
+    if rc != 0:
+        raise BuildError("docview (names) failed: " + err[-500:])
+    G.set_unicode_table(json.loads(out.splitlines()[0])["names"])
+
+
 def observe(mage, case):
     """everything that is run for one package"""
     d = case["dir"]
@@ -76,14 +87,15 @@ def observe(mage, case):
     if not ob["listing"]:
         return ob
     listed = [n.rstrip("*") for n, _ in ob["listing"][1]]
+    go_names(case["docview"], listed)
     for n in listed:
         h = mage.run(d, ["-h", n], env=HASHFAST)
         ob["helps"][n] = {"rc": h["rc"], "out": h["out"], "err": h["err"][-300:], "parsed": parse_help(h["out"]) if h["rc"] == 0 else None}
     # one run of every valid target the listing shows, by its listed spelling
-    bylow = {n.lower(): n for n in listed}
+    bylow = {G.go_lower(n): n for n in listed}
     words, plan = [], []
     for key, ws, expect, did in case["runs"]:
-        n = bylow.get(key.lower())
+        n = bylow.get(G.go_lower(key))
         if n is None:
             continue
         words += [n] + ws
@@ -93,7 +105,7 @@ def observe(mage, case):
         ob["run"] = {"words": words, "plan": plan, "rc": rr["rc"], "calls": calls(rr["out"]), "err": rr["err"][-600:]}
     if case["fail_run"]:
         key, ws, did = case["fail_run"]
-        n = bylow.get(key.lower())
+        n = bylow.get(G.go_lower(key))
         if n is not None:
             rr = mage.run(d, [n] + ws, env=dict(HASHFAST, VERIF_FAIL=did + ":error"))
             ob["fail_run"] = {"words": [n] + ws, "rc": rr["rc"], "calls": [c[0] for c in calls(rr["out"])], "err": rr["err"][-300:]}
@@ -130,19 +142,20 @@ def judge(ctx, case, ob):
         return bad
     desc, entries, footer = ob["listing"]
     listed = [n.rstrip("*") for n, _ in entries]
-    undecided = set(G.oracle_key(f).lower() for f in pkg["funcs"] if G.oracle_ambiguous(pkg, f))
-    want = sorted(G.oracle_key(f).lower() for f in valid if G.oracle_key(f).lower() not in undecided)
-    got = sorted(n.lower() for n in listed if n.lower() not in undecided)
+    # names are compared the way the command line is: by Go's strings.ToLower (harness/docview computes it)
+    undecided = set(G.go_lower(G.oracle_key(f)) for f in pkg["funcs"] if G.oracle_ambiguous(pkg, f))
+    want = sorted(G.go_lower(G.oracle_key(f)) for f in valid if G.go_lower(G.oracle_key(f)) not in undecided)
+    got = sorted(G.go_lower(n) for n in listed if G.go_lower(n) not in undecided)
     if want != got:
         v("exact-set", missing=[k for k in want if k not in got], unexpected=[k for k in got if k not in want])
     marked = [n[:-1] for n, _ in entries if n.endswith("*")]
     dflt = G.oracle_default(pkg)
-    wantmark = [G.oracle_key(dflt).lower()] if dflt else []
-    if sorted(m.lower() for m in marked) != wantmark or footer != bool(wantmark):
+    wantmark = [G.go_lower(G.oracle_key(dflt))] if dflt else []
+    if sorted(G.go_lower(m) for m in marked) != wantmark or footer != bool(wantmark):
         v("default-mark", marked=marked, declared=wantmark)
-    bylow = {n.lower(): n for n in listed}
+    bylow = {G.go_lower(n): n for n in listed}
     for f in valid:
-        n = bylow.get(G.oracle_key(f).lower())
+        n = bylow.get(G.go_lower(G.oracle_key(f)))
         if n is None:
             continue
         h = ob["helps"].get(n)
@@ -238,6 +251,7 @@ def run(ctx):
     ctx.log("theorems checked")
     mage = Mage(ctx)
     docview = go_build_harness(ctx, "docview", tags=None)
+    go_names(docview, G.all_pool_names())          # Go's unicode tables for the non-ASCII identifier pools
     # ---- cases
     cases = []
     if ctx.replay and ctx.replay.get("case"):
@@ -252,6 +266,8 @@ def run(ctx):
             cases.append({"stream": "default:" + shape, "pkg": G.gen_default_shape(rng, shape)})
         for _ in range(3 * k):
             cases.append({"stream": "magefiles-dir", "pkg": G.gen_package(rng)})
+        for j in range(6 * k):
+            cases.append({"stream": "unicode", "pkg": G.gen_unicode(rng, safe=(j % 2 == 0))})
         for cls, n in (("import-name-clash", 4), ("generic-namespace-type", 1), ("lookalike", 6)):
             for _ in range(n * k):
                 cases.append({"stream": cls, "pkg": G.gen_clash(rng, cls)})
@@ -272,6 +288,9 @@ def run(ctx):
         c["src"] = os.path.join(c["dir"], "magefiles") if c["stream"] == "magefiles-dir" else c["dir"]
         c["files"] = sorted(f for f in os.listdir(c["src"]) if f.startswith("mf_"))
         c["runs"] = plan_runs(rng, pkg)
+        c["docview"] = docview
+        # the ASCII model (lower, is_upper, equal_fold of Model/Classify.v) is Go's behaviour only on "safe" spellings
+        c["in_fragment"] = all(G.model_safe(n) for n in G.package_identifiers(pkg))
         errs = [r for r, f in [(r, next(f for f in pkg["funcs"] if G.def_id(f) == r[3])) for r in c["runs"]]
                 if len(f["res"]) == 1 and f["res"][0]["kind"] == "error"]
         c["fail_run"] = (errs[0][0], errs[0][1], errs[0][3]) if errs else None
@@ -327,7 +346,9 @@ def run(ctx):
             seen.add(h)
             if nv >= 1 and nv < len(pkg["funcs"]) and ob["alone_ok"]:
                 nontriv += 1
-        if c["stream"] not in CLASSES:
+        uni = "ascii" if all(G.is_ascii(n) for n in G.package_identifiers(pkg)) else ("unicode-in-model-fragment" if c["in_fragment"] else "unicode-oracle-only")
+        stats.setdefault("spelling", {})[uni] = stats.setdefault("spelling", {}).get(uni, 0) + 1
+        if c["stream"] not in CLASSES and c["in_fragment"]:
             items.append(coq_case(c, ob, dv))
             item_case.append((c, ob))
     if noncompiling > max(1, len(cases) // 10):
